@@ -25,6 +25,8 @@ STATEFUL_ANYWHERE = False
 BMM_SQUARE_PROB = 0.35
 # probability that all subgraphs of a multi-subgraph model carry the same (or no) name
 SAME_SG_NAME_PROB = 0.3
+# probability that a float CONSTANT (e.g. a weight) is also exported as a graph output
+CONST_OUTPUT_PROB = 0.0
 # value distribution of generated float constants (a check may narrow it)
 CONST_KINDS = ['normal'] * 6 + ['pos', 'neg', 'tiny', 'big', 'zero']
 
@@ -494,6 +496,8 @@ def gen_subgraph(mb, sg_index, key, n_ops, op_weights=None, want4d=None, fanout=
   if not outs:
     outs = [produced[-1][0]]
   rng.shuffle(outs)
+  if CONST_OUTPUT_PROB and gb.consts and rng.random() < CONST_OUTPUT_PROB:
+    outs.append(rng.choice(gb.consts))      # a model that also returns one of its weights
   if DUPLICATE_OUTPUTS and rng.random() < DUP_PROB:
     outs.append(rng.choice(outs))      # one tensor returned under two output names
   gb.g.outputs = outs
